@@ -190,7 +190,8 @@ class History(object):
         R = gen.rot_matrix(op["T"]["rot"])
         t = np.asarray(op["T"]["t"], dtype=float) * float(op["T"]["mag"])
         s = float(op["s"])
-        o.transform(rm.sim3(R, t, s))
+        # the propagate flag is documented for right-multiplication only: a left transformation stays T*P
+        o.transform(rm.sim3(R, t, s), propagate=True) if op.get("prop") else o.transform(rm.sim3(R, t, s))
         self.poses = [rm.se3(R @ p[:3, :3], s * (R @ p[:3, 3]) + t) for p in self.poses]
 
     def _op_sim3r(self, op, o, n):
@@ -460,7 +461,7 @@ OPS = {
     "tl": st.fixed_dictionaries({"op": st.just("tl"), "T": st_T}),
     "tr": st.fixed_dictionaries({"op": st.just("tr"), "T": st_T}),
     "trp": st.fixed_dictionaries({"op": st.just("trp"), "T": st_T}),
-    "sim3": st.fixed_dictionaries({"op": st.just("sim3"), "T": st_T, "s": st_s}),
+    "sim3": st.fixed_dictionaries({"op": st.just("sim3"), "T": st_T, "s": st_s, "prop": st.sampled_from([False, False, True])}),
     "sim3r": st.fixed_dictionaries({"op": st.just("sim3r"), "T": st_T, "s": st_s}),
     "scale": st.fixed_dictionaries({"op": st.just("scale"), "s": st_s}),
     "ids": st.fixed_dictionaries({"op": st.just("ids"), "ids": st.lists(st.integers(0, 30), min_size=1, max_size=12), "as_array": st.booleans()}),
